@@ -387,3 +387,13 @@ def position_carry(facts):
         return False, (f'with carried position {last} and a table whose position is {pos}, the carried position becomes {got[0]} and the table is filed under {got[1]}; '
                        f'expected {want[0]} / {want[1]}'), b
     return True, 'carried = own position if any, else unchanged; the table is filed under the carried position', b
+
+
+# functions whose behaviour on a family of inputs is tabulated by the structural interpreter with checked arithmetic, checked casts, slice bounds
+# and unwrap / expect modelled (a panic or a lossy cast in any evaluation is a violation of the named rule): for these, a *new* index / arithmetic /
+# cast site that appears with a refactoring is judged by the tabulation, not by the reviewed multiplicity
+TABULATED = {
+    '<toml_datetime::datetime::Datetime as core::str::traits::FromStr>::from_str': 'C12/R4 (every well-formed date-time shape with all single-character edits, fractions of 1..=14 digits)',
+    'toml_datetime::datetime::digit': 'C12/R4',
+    'toml_edit::error::translate_position': 'C15/R4 (every text of up to four characters over a multi-byte alphabet, every index)',
+}
